@@ -154,3 +154,13 @@ PROPS["C09"] = {
         {"bin": "c09", "quick": {"cases": 8000, "workers": 16, "budget": 200}, "thorough": {"cases": 60000, "workers": 16, "budget": 1500}},
     ],
 }
+
+PROPS["C18"] = {
+    "level": "exploration",
+    "rule": "rapidcheck-generated: (peak) WAV/WAVEX/AIFF/CAF (+RF64 with SFC_SET_ADD_PEAK_CHUNK) x FLOAT/DOUBLE x channels x buffers on an exact 1/1024 grid with the maximum planted at the first frame / last frame / a write-call boundary / as ties within a call, across calls and across channels / negative / all-zero x random write partition x the 4 write types; model = per-channel max |x| and frame index of its first occurrence, compared with the PEAK chunk located by an independent chunk walker and with SFC_GET_SIGNAL_MAX / SFC_GET_MAX_ALL_CHANNELS after re-open; "
+            "(calc) every catalogue entry x read position {start, middle, end, after a read} x NORM_DOUBLE/NORM_FLOAT settings: SFC_CALC_SIGNAL_MAX / NORM / MAX_ALL_CHANNELS / NORM_MAX_ALL_CHANNELS into a garbage-filled array equal the maximum of an independent sequential double read, position, settings and the next frame delivered are unchanged; non-trivial = >= 2 channels with a tie or call-boundary maximum (peak) or a non-zero read position (calc); distinct = hash of the case",
+    "assumptions": BASE_ASSUME + ["PEAK values are compared as (float) max because the chunk stores 32-bit floats", "for CALC on lossy codecs 'the stored samples' are what an independent sequential decode delivers"],
+    "stages": [
+        {"bin": "c18", "quick": {"cases": 4000, "workers": 16, "budget": 200}, "thorough": {"cases": 60000, "workers": 16, "budget": 1500}},
+    ],
+}
